@@ -10,9 +10,9 @@ Theorem Settle_not_mature_tie u period h : 0 <= h < two63 ->
   Settle_not_mature (u_created u) period h = negb (mature u period h) /\
   Settle_not_mature_panics (u_created u) period h = false.
 Proof.
-  intros Hh. unfold Settle_not_mature, mature. cbv zeta.
+  intros Hh. unfold Settle_not_mature, Settle_not_mature_panics, mature. cbv zeta.
   rewrite (to_uint64_small h) by (unfold two64, two63 in *; lia).
-  rewrite gtb_ltb, Bool.negb_involutive. split; reflexivity.
+  generalize (wrap64 (u_created u + period)) as pb. intros pb. split; arith_cases.
 Qed.
 
 (* tryPayout: who counts as a recipient *)
@@ -46,7 +46,7 @@ Proof. intros Hw Hlt. rewrite weight_fold; [lia|assumption|lia|lia]. Qed.
 Theorem Payout_nobody_tie (l : list recipient) :
   Payout_nobody (lenZ l) = match l with [] => true | _ => false end.
 Proof.
-  unfold Payout_nobody, lenZ. destruct l; [reflexivity|]. cbn [length]. lia.
+  unfold Payout_nobody, lenZ. destruct l; cbn [length]; arith_cases.
 Qed.
 
 (* tryPayout: the share of one recipient *)
@@ -70,10 +70,11 @@ Theorem selects_tie (recips : list recipient) created before :
   Verify_selects (lenZ recips) (before - 1) created = match recips with [] => created <? before | _ => false end /\
   SetRecipients_selects (lenZ recips) (before - 1) created = match recips with [] => created <? before | _ => false end.
 Proof.
-  unfold Verify_selects, SetRecipients_selects, lenZ. rewrite geb_leb.
+  unfold Verify_selects, SetRecipients_selects, lenZ.
   destruct recips; cbn [length].
-  - cbn [Z.of_nat Z.eqb andb]. split; lia.
-  - replace (Z.of_nat (S (length recips)) =? 0) with false by lia. split; reflexivity.
+  - change (Z.of_nat 0) with 0. split; arith_cases.
+  - assert (Z.of_nat (S (length recips)) <> 0) by lia. generalize dependent (Z.of_nat (S (length recips))). intros n Hn.
+    split; arith_cases.
 Qed.
 
 (* Record stores the current height as the creation height *)
